@@ -41,6 +41,7 @@ import (
 	"github.com/git-lfs/git-lfs/v3/creds"
 	"github.com/git-lfs/git-lfs/v3/git"
 	"github.com/git-lfs/git-lfs/v3/lfshttp"
+	"github.com/git-lfs/git-lfs/v3/verifx/vsched"
 	"github.com/git-lfs/git-lfs/v3/verifx/vx"
 )
 
@@ -321,24 +322,41 @@ func (o *c17Obs) viol(fp, msg string, detail map[string]interface{}) {
 //	                                                            capability[] announcement lines are tolerated)
 func (o *c17Obs) call(h creds.CredentialHelper, op string, supplied creds.Creds, protect bool) (out creds.Creds, err error) {
 	in := c17CopyCreds(supplied) // the pairs as supplied at call time
-	func() {
-		defer func() {
-			if e := recover(); e != nil {
-				err = fmt.Errorf("panic: %v", e)
-				o.r.Counters["panic_in_helper_call"]++
-			}
-		}()
-		switch op {
-		case "fill":
-			out, err = h.Fill(supplied)
-		case "approve":
-			err = h.Approve(supplied)
-		case "reject":
-			err = h.Reject(supplied)
-		}
-	}()
+	var panicked bool
+	out, err, panicked = c17Perform(h, op, supplied)
+	if panicked {
+		o.r.Counters["panic_in_helper_call"]++
+	}
 	recs := c17ReadRecs(o.nrec)
 	o.nrec += len(recs)
+	return o.judge(op, in, protect, recs, out, err)
+}
+
+// c17Perform runs one operation on the real helper chain; a panic of the code under test is an observation (an error).
+func c17Perform(h creds.CredentialHelper, op string, supplied creds.Creds) (out creds.Creds, err error, panicked bool) {
+	defer func() {
+		if e := recover(); e != nil {
+			if fmt.Sprintf("%T", e) == "vsched.abortSentinel" {
+				panic(e) // the controlled scheduler is unwinding its threads (deadlock / horizon): not an observation of this call
+			}
+			err = fmt.Errorf("panic: %v", e)
+			panicked = true
+		}
+	}()
+	switch op {
+	case "fill":
+		out, err = h.Fill(supplied)
+	case "approve":
+		err = h.Approve(supplied)
+	case "reject":
+		err = h.Reject(supplied)
+	}
+	return
+}
+
+// judge evaluates the statement for ONE performed helper call: in = the pairs as supplied at call time, recs = the stub
+// invocations caused by this call, (out, err) = what the call returned (handed back unchanged).
+func (o *c17Obs) judge(op string, in creds.Creds, protect bool, recs []c17Rec, out creds.Creds, err error) (creds.Creds, error) {
 	o.ncall++
 	o.r.Evals++
 	if c17HasSpecial(in) {
@@ -1364,10 +1382,37 @@ func c17HostProt(w c17World, host int) string {
 // ------------------------------------------------------------------------------------------------
 // worker processes
 
+// Package creds is rewritten onto the controlled scheduler (prop.json "rewrite"): every use of its mutexes must happen inside
+// a controlled execution.  The four single-threaded scenarios run under the scheduler's deterministic default schedule
+// (c17Sequential: one logical thread, so there is never a scheduling choice); scenario concurrent explores schedules itself.
 var c17Parts = []struct {
 	name string
 	run  vx.RunFunc
-}{{"direct", c17RunDirect}, {"url", c17RunURL}, {"flow", c17RunFlow}, {"sequence", c17RunSeq}}
+}{{"direct", c17Sequential(c17RunDirect)}, {"url", c17Sequential(c17RunURL)}, {"flow", c17Sequential(c17RunFlow)}, {"sequence", c17Sequential(c17RunSeq)},
+	{"concurrent", c17RunConcurrent}}
+
+// c17Sequential executes one case as the only logical thread of a controlled execution.
+func c17Sequential(run vx.RunFunc) vx.RunFunc {
+	return func(x *vx.X) (r vx.Result) {
+		var pv interface{}
+		out := vsched.Run(func(n int, w []int) int { return 0 }, vsched.Options{DelayBounded: true}, func() {
+			defer func() {
+				if e := recover(); e != nil {
+					pv = e
+				}
+			}()
+			r = run(x)
+		})
+		if pv != nil && fmt.Sprintf("%T", pv) != "vsched.abortSentinel" {
+			panic(pv) // ToolError or harness panic: handled by vx.SafeRun exactly as without the scheduler
+		}
+		if out.Deadlock || out.Horizon || out.Panic != "" || out.Threads != 1 {
+			panic(vx.ToolError{Msg: fmt.Sprintf("C17: single-threaded case did not run to completion under the controlled scheduler: deadlock=%v horizon=%v threads=%d panic=%s blocked=%v",
+				out.Deadlock, out.Horizon, out.Threads, out.Panic, out.Blocked)})
+		}
+		return r
+	}
+}
 
 type c17Req struct {
 	Part   string     `json:"part"`
@@ -1590,7 +1635,12 @@ func TestVerifC17(t *testing.T) {
 		"sequence (every order of the GET and USE steps of two exchanges on one context in which each GET precedes its USE): 2 (thorough: also 3) exchanges in ONE CredentialHelperContext (shared command helper, cache, context lists): world = (global, URL-scoped for host A, URL-scoped for host B) credential.protectProtocol in {unset,false,true}^3 " +
 		"(quick: 9-world slice; thorough: all 27) x earlier exchange(s) {host A,B,C(never configured)} x {approve,fill,reject} (thorough: x {clean, CR in username}) x last exchange host x operation x field {username, password, path, wwwauth[] entry} x {CR,LF,NUL,clean byte} x {start,middle,end} " +
 		"(quick and 3-exchange: 4 fields, CR at 3 positions, the others in the middle; thorough adds lfs.cachecredentials=false on the 9-world slice); each exchange judged under the configuration applying to ITS url. " +
-		"distinct_nontrivial = distinct (operation, protection, supplied map) tuples whose values contain at least one control / non-ASCII byte and for which a helper call was made and judged (flow: distinct (protection, mode, byte, position, call number) with such a map, because those maps contain an ephemeral port; sequence (every order of the GET and USE steps of two exchanges on one context in which each GET precedes its USE): distinct (world, cache, exchange sequence, call number) with such a map); plain-ASCII cases only count as evaluations"
+		"concurrent: 2 (thorough: also 3) logical threads on ONE CredentialHelperContext under the controlled scheduler (package creds rewritten at check time so that every Lock and every Unlock of its mutexes is a scheduling point), each thread = GetCredentialHelper(url) followed by one of {approve, fill, reject} on the helper chain it got; " +
+		"world {nothing configured, global protectProtocol=false, protectProtocol=false scoped to repository r0 on host A} x URL pair {same URL, same host other repository, other host; with a scoped setting the asymmetric pairs in both thread orders} (11 world/pair combinations) x operation per thread (9) x value pair; " +
+		"stratum A: value pairs (clean, CR in username), (CR, clean), (CR, CR), every schedule with <= 2 (thorough 3) deviations from the deterministic default schedule (delay bounding: any switch away from the running / lowest-numbered enabled thread costs 1); " +
+		"stratum B: every other pair over {clean, CR / LF / NUL in username, CR in path, CR in password} in which at least one thread carries clean or CR-in-username (17 pairs, (clean, clean) among them), plus {clean, CR in username}^2 with a context wwwauth[] list {clean, CR in its 2nd entry}; <= 1 (thorough 2) deviations; " +
+		"stratum C (thorough): three threads = the pair ({approve, fill}^2, values (clean, clean), (CR, clean), (clean, CR)) plus a third thread (fill, CR in username) on thread 0's URL or on a never-configured host, <= 2 deviations; every thread's call is judged by the same per-call oracle under the configuration applying to ITS url. " +
+		"distinct_nontrivial = distinct (operation, protection, supplied map) tuples whose values contain at least one control / non-ASCII byte and for which a helper call was made and judged (flow: distinct (protection, mode, byte, position, call number) with such a map, because those maps contain an ephemeral port; sequence (every order of the GET and USE steps of two exchanges on one context in which each GET precedes its USE): distinct (world, cache, exchange sequence, call number) with such a map; concurrent: distinct (world, context list, per-thread url/operation/value, thread) with such a map, whatever the schedule); plain-ASCII cases only count as evaluations"
 	c.Assumptions = []string{
 		"the `git` found first on PATH is a recording stub; what `git credential` itself does with its input is outside the property",
 		"'refused' is read as: the call returns an error and the helper process received no input",
@@ -1598,6 +1648,7 @@ func TestVerifC17(t *testing.T) {
 		"protection enabled/disabled is decided by credential.protectProtocol (and its URL-scoped form, for a plain URL) as supplied in the git configuration; default enabled",
 		"scenarios direct/url use a fresh helper context per case; scenario sequence shares one context across 2-3 exchanges; longer sequences are not explored",
 		"sequence: when the context's credential cache may hold an entry for the exchange's protocol//host//path (an earlier approve, no later reject), git-lfs may answer from the cache without running `git credential`: then delivery is not demanded and a missing error is not a violation, but a value that must be refused must still never reach the helper",
+		"concurrent scenario: the scheduler controls the Lock/Unlock operations of package creds (rewritten at check time); plain memory accesses between two such operations are atomic for it. A stub invocation is attributed to the thread whose marker (the fixed head of its username) it carries, else to every thread during whose call it started. When another thread approves the same protocol//host//path the credential cache may answer a call: delivery is then not demanded",
 		"flow scenario: Client.Credentials is a pass-through recorder that forwards to the production helper chain obtained from the client's own credential context",
 	}
 	c.Bounds["palette_sequences"] = len(c17Palette)
@@ -1606,6 +1657,15 @@ func TestVerifC17(t *testing.T) {
 	c.Bounds["protect_configs"] = len(c17PPs)
 	c.Bounds["flow_modes"] = len(c17FlowModes)
 	c.Bounds["all_bytes_full_product"] = c.Thorough()
+	{
+		budget, cost := c17CBound()
+		c.Bounds["concurrent_threads"] = map[bool]int{false: 2, true: 3}[c.Thorough()]
+		c.Bounds["concurrent_schedule_deviations_stratum_A"] = budget / cost[0]
+		c.Bounds["concurrent_schedule_deviations_stratum_B"] = budget / cost[1]
+		if c.Thorough() {
+			c.Bounds["concurrent_schedule_deviations_stratum_C_3_threads"] = budget / cost[2]
+		}
+	}
 
 	n := runtime.NumCPU()
 	var replay *vx.ReplayFile
@@ -1644,16 +1704,28 @@ func TestVerifC17(t *testing.T) {
 		pool.close()
 		os.Exit(code)
 	}
-	deadline := c.DeadlineAfter(150*time.Second, 22*time.Minute)
+	deadline := c.DeadlineAfter(185*time.Second, 22*time.Minute)
+	// scenario concurrent runs first, within its own slice of the budget (it is about a quarter of the quick tier's work): on a
+	// loaded machine the common deadline then cuts the tail of the last scenario instead of leaving a whole scenario unexplored
+	concDeadline := c.DeadlineAfter(80*time.Second, 10*time.Minute)
+	if concDeadline.After(deadline) {
+		concDeadline = deadline
+	}
 	var parts []vx.Part
 	counters := map[string]int64{}
 	only := os.Getenv("VERIF_ONLY")
-	for _, p := range c17Parts {
+	order := []int{4, 0, 1, 2, 3}
+	for _, pi := range order {
+		p := c17Parts[pi]
 		if only != "" && only != p.name {
 			continue
 		}
 		ex := execFor(p.name)
 		e := &vx.Explorer{Name: "C17/" + p.name, BoundEnv: 0, BoundSch: 0, BoundSum: -1, Workers: n, Exec: ex, Deadline: deadline}
+		if p.name == "concurrent" {
+			e.BoundSch, _ = c17CBound() // scheduling deviations: the only costed choices of this check
+			e.Deadline = concDeadline
+		}
 		st := e.Explore()
 		parts = append(parts, vx.Part{Scenario: p.name, Stats: st, Exec: ex})
 		for k, v := range st.Counters {
